@@ -404,12 +404,19 @@ static inline std::string stName(SoPlex& sp)
    return statusName((int)sp.status());
 }
 
+static int g_nonfinite = 0;
+static inline void noteNonFinite(double v)
+{
+   if(std::isnan(v) || std::isinf(v)) g_nonfinite++;
+}
+static inline void noteNonFinite(const soplex::Rational&) {}
 template <class SV> static void collect(const SV& v, int major, bool rowwise, int other, std::vector<std::tuple<int, int, std::string>>& out, bool& bad)
 {
    for(int k = 0; k < v.size(); k++)
    {
       int idx = v.index(k);
       if(idx < 0 || idx >= other) bad = true;
+      noteNonFinite(v.value(k));
       std::ostringstream o;
       o << std::setprecision(17) << v.value(k);
       out.emplace_back(rowwise ? major : idx, rowwise ? idx : major, o.str());
@@ -424,6 +431,7 @@ static inline bool mirrorCheck(SoPlex& sp, int entry, const char* when, bool rat
    int m = rational ? sp.numRowsRational() : sp.numRows(), n = rational ? sp.numColsRational() : sp.numCols();
    std::vector<std::tuple<int, int, std::string>> R, Cc;
    bool bad = false;
+   g_nonfinite = 0;
    for(int i = 0; i < m; i++)
    {
       if(rational) collect(sp.rowVectorRational(i), i, true, n, R, bad);
@@ -460,6 +468,16 @@ static inline bool mirrorCheck(SoPlex& sp, int entry, const char* when, bool rat
       }
       if(k > 0 && std::get<0>(R[k]) == std::get<0>(R[k - 1]) && std::get<1>(R[k]) == std::get<1>(R[k - 1])) dup++;
    }
+   if(!rational)
+   {
+      for(int j = 0; j < n; j++) noteNonFinite(sp.objReal(j));
+      if(g_nonfinite > 0)
+      {
+         // readLPF itself says "non-finite coefficients are not allowed"; NaN/inf matrix or objective entries make every later computation meaningless
+         H.viol("C13:" + e + ":nonfinite-coefficient:" + sfx, std::to_string(g_nonfinite) + " matrix/objective coefficient(s) of the LP are NaN or infinite (e.g. the literals nan, inf, 1e999 accepted by atof)");
+         return false;
+      }
+   }
    if(dup)
    {
       cnt("observed.duplicate_matrix_entries");
@@ -471,7 +489,7 @@ static inline bool mirrorCheck(SoPlex& sp, int entry, const char* when, bool rat
    return true;
 }
 
-static inline void sidesCheck(SoPlex& sp, int entry)
+static inline bool sidesCheck(SoPlex& sp, int entry)
 {
    std::string e = entryName[entry];
    int m = sp.numRows(), n = sp.numCols();
@@ -480,8 +498,8 @@ static inline void sidesCheck(SoPlex& sp, int entry)
       double l = sp.lhsReal(i), r = sp.rhsReal(i);
       if(std::isnan(l) || std::isnan(r))
       {
-         cnt("observed.nan_side");
-         continue;
+         H.viol("C13:" + e + ":nan-side-or-bound", "row " + std::to_string(i) + " has a NaN side after a successful read");
+         return false;
       }
       const double inf = soplex::infinity;
       if(std::max(-inf, std::min(inf, l)) > std::max(-inf, std::min(inf, r)))      // +-1e100 and beyond all mean "infinite"
@@ -492,11 +510,20 @@ static inline void sidesCheck(SoPlex& sp, int entry)
    }
    cnt("post.sides_checked");
    // the readers do not promise lower<=upper for columns (a file may say so): observed, not judged
-   for(int j = 0; j < n; j++) if(sp.lowerReal(j) > sp.upperReal(j))
+   for(int j = 0; j < n; j++)
+   {
+      if(std::isnan(sp.lowerReal(j)) || std::isnan(sp.upperReal(j)))
+      {
+         H.viol("C13:" + e + ":nan-side-or-bound", "column " + std::to_string(j) + " has a NaN bound after a successful read");
+         return false;
+      }
+      if(sp.lowerReal(j) > sp.upperReal(j))
       {
          cnt("observed.lower_gt_upper");
          break;
       }
+   }
+   return true;
 }
 
 // the object must still be usable: clear, load a small good LP, solve it to its known optimum
@@ -638,7 +665,7 @@ static inline void runCase(const CaseIn& in, CaseOut& out)
          cnt("entry." + e + ".success");
          bool wellFormed = mirrorCheck(sp, entry, "after-success", false);
          if(rational && sp.intParam(SoPlex::SYNCMODE) == SoPlex::SYNCMODE_AUTO) wellFormed = mirrorCheck(sp, entry, "after-success", true) && wellFormed;
-         sidesCheck(sp, entry);
+         wellFormed = sidesCheck(sp, entry) && wellFormed;
          if(names)
          {
             cnt("post.namesets_checked");
